@@ -116,11 +116,11 @@ def check_validate_method(A, rep):
     for func, cls in seen.items():
         b, g = A.graph(cls, "_validate", "root", "none")
         rep.context(g.label, True)
-        calls = [n.id for n in live(g) if n.kind == "call_pkg" and n.stack and len(n.stack) == 1]
+        calls = [n.id for n in live(g) if n.kind == "call_pkg" and n.stack and own(n)]
         nvals = len(A.model.lookup(cls, "_all_validators")[1] or ())
         # the loop over the validators may not be by-passed (a loop body is modelled as 0..n iterations, so the
         # obligation is on its head)
-        heads = [n.id for n in live(g) if n.kind == "join" and n["what"] == "loop-head" and len(n.stack) == 1
+        heads = [n.id for n in live(g) if n.kind == "join" and n["what"] == "loop-head" and own(n)
                  and any(c in g.reachable_from([y for (y, l) in g.succ[n.id]], avoid=[n.id]) for c in calls)]
         w = g.must_pass(g.entry, [g.exit], heads) if heads else [g.entry]
         called = {f.qualname for n in live(g) if n.kind == "call_pkg" for f in (n["funcs"] or ())}
